@@ -401,6 +401,14 @@ pub fn do_op<K: KeyT, V: ValT>(m: &mut Map<K, V>, w: &[&str], chk: &mut Vec<Stri
             let h = std::hash::BuildHasher::hash_one(&hb, &hk);
             drop(hk);
             let id = n(2);
+            // one time in four, on a vacant entry: the ENUM-level RawEntryMut::insert(key, value)
+            if n(3) % 4 == 3 && m.raw_entry().from_hash(h, |q| q.id() == id).is_none() {
+                let o = m.raw_entry_mut().from_hash(h, |q| q.id() == id).insert(K::mk(n(2), n(3)), V::mk(n(4)));
+                if o.key().id() != n(2) || o.get().val() != n(4) {
+                    chk.push("RawEntryMut::insert returned an entry that does not hold the inserted pair".into());
+                }
+                return Out::None;
+            }
             match m.raw_entry_mut().from_hash(h, |q| q.id() == id) {
                 hashbrown::hash_map::RawEntryMut::Occupied(mut e) => {
                     let old = e.insert(V::mk(n(4)));
@@ -435,7 +443,9 @@ pub fn do_op<K: KeyT, V: ValT>(m: &mut Map<K, V>, w: &[&str], chk: &mut Vec<Stri
                 v => v,
             };
             match after {
-                hashbrown::hash_map::RawEntryMut::Vacant(v) => { v.insert(K::mk(n(3), n(4)), V::mk(n(5))); }
+                hashbrown::hash_map::RawEntryMut::Vacant(v) if n(4) % 2 == 0 => { v.insert(K::mk(n(3), n(4)), V::mk(n(5))); }
+                // the ENUM-level insert on the vacant entry that replace_entry_with returned
+                e @ hashbrown::hash_map::RawEntryMut::Vacant(_) => { e.insert(K::mk(n(3), n(4)), V::mk(n(5))); }
                 hashbrown::hash_map::RawEntryMut::Occupied(_) => chk.push("raw replace_entry_with returned Occupied although the closure returned None".into()),
             }
             match old {
